@@ -477,6 +477,7 @@ fn step_from(v: &Value) -> Step {
 
 impl World for C12World {
     const PROP: &'static str = "C12";
+    const NONDETERMINISM_IS_VIOLATION: bool = true;
     const MINIMISE_SECS: f64 = 40.0;
     const MAX_VIOLATIONS_PER_WORKER: usize = 1;
 
@@ -567,6 +568,46 @@ impl World for C12World {
                     clients[c].insert(at + k, st);
                 }
             }
+        }
+        // same-shape twins: two large operands with the same structure, the same vertex count and the same first
+        // vertex that differ only in later coordinates (one part moved far away), used back to back as short-lived
+        // temporaries (so that the second one tends to be allocated where the first one was)
+        if r.chance(1, 10) {
+            let mut big: Operand = Vec::new();
+            for k in 0..(14 + r.below(8)) {
+                let (x, y) = (3.0 * (k % 6) as f64, 3.0 * (k / 6) as f64);
+                big.push(vec![vec![[x, y], [x + 2.0, y], [x + 2.0, y + 2.0], [x, y + 2.0], [x, y]]]);
+            }
+            let mut twin = geom::translate(&big, 500.0, 0.0);
+            twin[0] = big[0].clone(); // same first vertex (and first part), everything else far away
+            let small: Operand = vec![vec![vec![[4.0, 4.0], [9.0, 4.0], [9.0, 9.0], [4.0, 9.0], [4.0, 4.0]]]];
+            let base = operands.len() as u32;
+            operands.extend([big, twin, small]);
+            let op = r.below(4) as u8;
+            let heap = Policy { place: heap::Place::AscLifo, fill: *fr.pick(&FILLS) }.code();
+            let mk = |l: u32, rr: u32| Step { retire: false, op, lhs: Src::Pool(base + l), rhs: Src::Pool(base + rr), pairing: 0, f32_: false, heap, clone_ops: true, cancel: 0, save: false, repeat: 1 };
+            let c = r.below(clients.len() as u64) as usize;
+            let at = r.below(clients[c].len() as u64 + 1) as usize;
+            let pair = if r.chance(1, 2) { vec![mk(2, 1), mk(2, 0)] } else { vec![mk(2, 0), mk(2, 1)] };
+            for (k, st) in pair.into_iter().enumerate() {
+                clients[c].insert(at + k, st);
+            }
+        }
+        // a call whose result has hundreds of polygons (work that an implementation might split up)
+        if r.chance(1, 40) {
+            let n = 17 + r.below(8);
+            let mut grid: Operand = Vec::new();
+            for k in 0..n * n {
+                let (x, y) = (3.0 * (k % n) as f64, 3.0 * (k / n) as f64);
+                grid.push(vec![vec![[x, y], [x + 2.0, y], [x + 2.0, y + 2.0], [x, y + 2.0], [x, y]]]);
+            }
+            let cover: Operand = vec![vec![vec![[-1.0, -1.0], [3.0 * n as f64, -1.0], [3.0 * n as f64, 3.0 * n as f64 - 2.5], [-1.0, 3.0 * n as f64 - 2.5], [-1.0, -1.0]]]];
+            let base = operands.len() as u32;
+            operands.extend([grid, cover]);
+            let op = *r.pick(&[0u8, 1, 3]);
+            let c = r.below(clients.len() as u64) as usize;
+            let at = r.below(clients[c].len() as u64 + 1) as usize;
+            clients[c].insert(at, Step { retire: false, op, lhs: Src::Pool(base), rhs: Src::Pool(base + 1), pairing: 0, f32_: false, heap: 0, clone_ops: false, cancel: 0, save: false, repeat: 2 });
         }
         let yield16 = if faulty { *fr.pick(&[0u64, 1, 1, 4, 16]) } else { 0 };
         C12World {
